@@ -95,15 +95,15 @@ Lemma flag_stage_if bt orig st w :
   let '(st', w') := flag_stage (FIf bt) orig st w in
   r_entry st' = r_entry st /\ r_exit st' = r_exit st /\ r_stack st' = r_stack st /\ r_del st' = r_del st /\
   r_retain st' = r_retain st /\ r_loc st' = r_loc st /\
-  r_roe st' = r_roe st ++ (if is_nil (f_bx orig) then [] else [f_bx orig]) /\
+  r_roe st' = regb (top (r_stack st)) (f_bx orig) (r_roe st) /\
   r_ron st' = rega (top (r_stack st)) (f_sa orig) (r_ron st) /\
   f_before w' = f_before w /\ f_after w' = f_after w ++ f_be orig /\ f_alt w' = f_alt w.
 Proof.
   unfold flag_stage.
   destruct (has_instr orig) eqn:Hh; cbn [negb].
-  2:{ apply has_instr_false in Hh. destruct Hh as (?&?&?&Hs&Hb&Hx&?). unfold rega. rewrite Hs, Hb, Hx.
+  2:{ apply has_instr_false in Hh. destruct Hh as (?&?&?&Hs&Hb&Hx&?). unfold rega, regb. rewrite Hs, Hb, Hx.
       cbn. rewrite !app_nil_r. repeat split. }
-  unfold rega.
+  unfold rega, regb.
   destruct (f_be orig) as [|b1 bl] eqn:Eb; destruct (f_bx orig) as [|x1 xl] eqn:Ex; destruct (f_sa orig) as [|s1 sl] eqn:Es;
     cbn; rewrite ?app_nil_r; repeat split; try reflexivity.
 Qed.
